@@ -83,7 +83,41 @@ def c04(cx):
     cx.validate("Trace_Server", "Trace_C04.cfg", r["trace"], what="authorization/ban sequences with restarts")
 
 
-PLANS = {"C01": c01, "C02": c02, "C03": c03, "C04": c04, "C06": c06, "C07": c07}
+def c18(cx):
+    import json
+    cx.assumptions += ["time values are rank-encoded (order preserving) from the nanosecond clock the logger itself read (hook inside ExpireLogs)",
+                       "lines are drawn from a two-letter alphabet with lengths 0..2x the line limit"]
+    q = cx.tier == QUICK
+    for mb in (1, 6, 8):
+        cx.mc("MC_EventLog", "MC_EventLog.cfg", {"MaxBytes": mb, "Defects": "{}", "MaxTime": 4, "MaxOps": 5 if q else 6},
+              note="all histories of Printf/ExpireLogs/Dump over 10 lines, non-decreasing clock; NewestKept and "
+                   "EvictOldestFirstMinimal asserted inside Printf")
+    r = cx.drv_ok("eventlog")
+    for f in r["summary"]["files"]:
+        first = json.loads(open(f).readline())
+        if not cx.validate("Trace_EventLog", "Trace_EventLog.cfg", f,
+                           {"MaxBytes": first["max"], "MaxLine": first["maxline"]},
+                           what="real EventLogger, max=%d line=%d" % (first["max"], first["maxline"])):
+            break
+
+
+def c19(cx):
+    import json
+    cx.assumptions += ["window bound judged for half-open windows (a - rate, a]: the reading under which the limiter's strict After is exact",
+                       "times are rank-encoded from the limiter's own clock reading taken under its mutex; the caller's before/after readings must bracket it"]
+    q = cx.tier == QUICK
+    for lim, rate in ((1, 1), (2, 3), (3, 4)) if q else ((1, 1), (1, 3), (2, 2), (2, 3), (3, 4), (3, 2)):
+        cx.mc("MC_RateLimiter", "MC_RateLimiter.cfg", {"Limit": lim, "Rate": rate, "Defects": "{}", "MaxTime": 10, "MaxCalls": 8 if q else 10},
+              note="all non-decreasing arrival sequences; DecisionMatchesHistory asserted against the unpruned history")
+    r = cx.drv_ok("ratelimit")
+    for f in r["summary"]["files"]:
+        first = json.loads(open(f).readline())
+        if not cx.validate("Trace_RateLimiter", "Trace_RateLimiter.cfg", f, {"Limit": first["limit"]},
+                           what="real RateLimiter, limit=%d, windows x 1..64 goroutines x 3 arrival patterns" % first["limit"]):
+            break
+
+
+PLANS = {"C01": c01, "C02": c02, "C03": c03, "C04": c04, "C06": c06, "C07": c07, "C18": c18, "C19": c19}
 
 
 def replay(cx, path):
